@@ -69,7 +69,19 @@ def reached_fns(unit_name, g, res):
     """registry ids of the functions the verifier actually ran (an error such as `loop must have a decreases clause`
     aborts the rest of its module: those functions are neither verified nor refuted)"""
     names = set(f['function'].replace('_canary::', '::', 1) for f in (res.get('function_breakdown') or []))
-    return set(f['id'] for f in g.functions if vname(unit_name, f['id']) in names)
+    out = set()
+    for f in g.functions:
+        vn = vname(unit_name, f['id'])
+        if vn in names:
+            out.add(f['id'])
+            continue
+        # blanket impls (`impl<T> Trait for T`) are reported as `<module>::impl&%N::T::<fn>`
+        parts = vn.split('::')
+        if len(parts) >= 4:
+            pre, tail = '::'.join(parts[:2]) + '::', '::' + '::'.join(parts[-2:])
+            if any(n.startswith(pre) and n.endswith(tail) and 'impl&%' in n for n in names):
+                out.add(f['id'])
+    return out
 
 
 def run_unit(name, factory, canaries=True, rlimit=30):
